@@ -408,6 +408,123 @@ fn labels_of(recs: &[verif::Record], mode: Mode) -> String {
     out.join(" ")
 }
 
+
+/// C06 at node level under bursts: far more signals queued at once than any internal batch size
+/// (1000 plain + 200 priority before the listener call, 500 more while a callback lingers);
+/// every one reaches the callback / the queue exactly once, in sending order per kind
+fn signal_burst(out: &mut Out, mode: Mode) {
+    mark_scenario(out, &format!("node signal burst {:?}: 1000 plain + 200 priority signals before the listener call, 500 more plain ones while the first callback lingers 30 ms", mode));
+    let (handler, listener) = node::split::<u64>();
+    for i in 0..1000u64 { handler.signals().send(i); }
+    for i in 0..200u64 { handler.signals().send_with_priority(10_000 + i); }
+    let got: Arc<Mutex<Vec<u64>>> = Arc::new(Mutex::new(vec![]));
+    let first = Arc::new(AtomicBool::new(true));
+    let on_sig = { let (got, first, h) = (got.clone(), first.clone(), handler.clone()); move |s: u64| {
+        if first.swap(false, Ordering::SeqCst) {
+            let h2 = h.clone();
+            let t = std::thread::spawn(move || { for i in 1000..1500u64 { h2.signals().send(i); } });
+            std::thread::sleep(Duration::from_millis(30));
+            let _ = t.join();
+        }
+        got.lock().unwrap().push(s);
+    } };
+    let done = Arc::new(AtomicBool::new(false));
+    let lt = { let (done, h) = (done.clone(), handler.clone()); std::thread::Builder::new().name("listener-caller".into()).spawn(move || {
+        let mut on_sig = on_sig;
+        match mode {
+            Mode::ForEach => listener.for_each(move |ev| if let NodeEvent::Signal(s) = ev { on_sig(s) }),
+            Mode::ForEachAsync => { let mut task = listener.for_each_async(move |ev| if let NodeEvent::Signal(s) = ev { on_sig(s) }); task.wait(); }
+            Mode::Enqueue => {
+                let (mut task, mut receiver) = listener.enqueue();
+                loop { match receiver.receive_timeout(Duration::from_millis(20)) { Some(node::StoredNodeEvent::Signal(s)) => on_sig(s), Some(_) => {}, None => if !h.is_running() { break; } } }
+                task.wait();
+            }
+        }
+        done.store(true, Ordering::SeqCst);
+    }).unwrap() };
+    let end = Instant::now() + Duration::from_secs(4);
+    while got.lock().unwrap().len() < 1700 && Instant::now() < end { std::thread::sleep(Duration::from_millis(5)); }
+    std::thread::sleep(Duration::from_millis(60));
+    handler.stop();
+    let end = Instant::now() + Duration::from_secs(3);
+    while !done.load(Ordering::SeqCst) && Instant::now() < end { std::thread::sleep(Duration::from_millis(5)); }
+    if done.load(Ordering::SeqCst) { let _ = lt.join(); } else { out.violation(&format!("[C09,C18] signal burst {:?}: the listener did not return within 3 s after stop()", mode)); }
+    let _ = verif::take();
+    let got = got.lock().unwrap().clone();
+    let plain: Vec<u64> = got.iter().cloned().filter(|x| *x < 10_000).collect();
+    let prio: Vec<u64> = got.iter().cloned().filter(|x| *x >= 10_000).collect();
+    let want_plain: Vec<u64> = (0..1500).collect();
+    let want_prio: Vec<u64> = (10_000..10_200).collect();
+    if plain != want_plain || prio != want_prio {
+        let missing: Vec<u64> = want_plain.iter().chain(want_prio.iter()).cloned().filter(|x| !got.contains(x)).collect();
+        let first_bad = plain.iter().zip(want_plain.iter()).position(|(a, b)| a != b);
+        out.violation(&format!("[C06] {:?}: 1000 plain signals (0..1000) and 200 priority signals (10000..10200) sent before the listener call, 500 more plain ones (1000..1500) while the first callback lingers 30 ms: delivered {} plain / {} priority; never delivered {:?}{}; first plain position out of sequence {:?}", mode, plain.len(), prio.len(), &missing[..missing.len().min(20)], if missing.len() > 20 { format!(" ... ({} in all)", missing.len()) } else { String::new() }, first_bad));
+    }
+    out.count("node_signal_burst");
+}
+
+/// C05 where the only live resource is an ACCEPTED connection (its listener has been removed) and the
+/// application re-arms a timeout the usual way (cancel the id of the timer that has just fired, arm a new one):
+/// a peer streams one-byte messages, two threads send plain signals, callbacks spin ~20 us / signals ~200 us
+fn overlap_accepted_only(out: &mut Out, mode: Mode, millis: u64) {
+    use std::io::Write;
+    mark_scenario(out, &format!("node overlap {:?}: only an accepted Tcp connection is left (listener removed), re-armed timers with a cancel of the fired id, plain signals from 2 threads", mode));
+    let (handler, listener) = node::split::<u64>();
+    let (lid, addr) = handler.network().listen(Transport::Tcp, "127.0.0.1:0").unwrap();
+    let inside = Arc::new(AtomicUsize::new(0));
+    let overlaps = Arc::new(AtomicU64::new(0));
+    let (nets, sigs) = (Arc::new(AtomicU64::new(0)), Arc::new(AtomicU64::new(0)));
+    let accepted = Arc::new(AtomicBool::new(false));
+    let timer: Arc<Mutex<Option<message_io::events::TimerId>>> = Arc::new(Mutex::new(None));
+    let stop = Arc::new(AtomicBool::new(false));
+    let cb = { let (inside, overlaps, nets, sigs, accepted, timer, h) = (inside.clone(), overlaps.clone(), nets.clone(), sigs.clone(), accepted.clone(), timer.clone(), handler.clone()); move |ev: NodeEvent<u64>| {
+        if inside.fetch_add(1, Ordering::SeqCst) != 0 { overlaps.fetch_add(1, Ordering::SeqCst); }
+        let spin = match ev {
+            NodeEvent::Network(NetEvent::Accepted(..)) => { accepted.store(true, Ordering::SeqCst); 20 }
+            NodeEvent::Network(_) => { nets.fetch_add(1, Ordering::SeqCst); 20 }
+            NodeEvent::Signal(7_000_000) => {
+                // the timeout has fired: cancel its (now stale) id and arm the next one
+                let mut t = timer.lock().unwrap();
+                if let Some(id) = t.take() { h.signals().cancel_timer(id); }
+                *t = Some(h.signals().send_with_timer(7_000_000, Duration::from_micros(700)));
+                sigs.fetch_add(1, Ordering::SeqCst); 200
+            }
+            NodeEvent::Signal(_) => { sigs.fetch_add(1, Ordering::SeqCst); 200 }
+        };
+        let t = Instant::now(); while t.elapsed() < Duration::from_micros(spin) { std::hint::spin_loop(); }
+        inside.fetch_sub(1, Ordering::SeqCst);
+    } };
+    let done = Arc::new(AtomicBool::new(false));
+    let lt = { let done = done.clone(); std::thread::Builder::new().name("listener-caller".into()).spawn(move || { match mode { Mode::ForEach => listener.for_each(cb), _ => { let mut task = listener.for_each_async(cb); task.wait(); } } done.store(true, Ordering::SeqCst); }).unwrap() };
+    let mut bg = vec![];
+    let peer = std::net::TcpStream::connect(addr);
+    let end = Instant::now() + Duration::from_secs(2);
+    while !accepted.load(Ordering::SeqCst) && Instant::now() < end { std::thread::sleep(Duration::from_millis(2)); }
+    handler.network().remove(lid);
+    if let Ok(mut peer) = peer {
+        let stop = stop.clone();
+        let _ = peer.set_nodelay(true);
+        bg.push(std::thread::spawn(move || { while !stop.load(Ordering::SeqCst) { if peer.write_all(&[1u8]).is_err() { break; } let t = Instant::now(); while t.elapsed() < Duration::from_micros(60) { std::hint::spin_loop(); } } }));
+    }
+    *timer.lock().unwrap() = Some(handler.signals().send_with_timer(7_000_000, Duration::from_micros(700)));
+    for k in 0..2u64 { let (stop, h) = (stop.clone(), handler.clone()); bg.push(std::thread::spawn(move || { let mut i = 0u64; while !stop.load(Ordering::SeqCst) { h.signals().send(k << 20 | (i & 0xfffff)); i += 1; std::thread::sleep(Duration::from_micros(500)); } })); }
+    std::thread::sleep(Duration::from_millis(millis));
+    handler.stop();
+    stop.store(true, Ordering::SeqCst);
+    for b in bg { let _ = b.join(); }
+    let end = Instant::now() + Duration::from_secs(3);
+    while !done.load(Ordering::SeqCst) && Instant::now() < end { std::thread::sleep(Duration::from_millis(5)); }
+    if done.load(Ordering::SeqCst) { let _ = lt.join(); } else { out.violation(&format!("[C09,C18] overlap {:?}: the listener did not return within 3 s after stop()", mode)); }
+    let _ = verif::take();
+    if overlaps.load(Ordering::SeqCst) > 0 {
+        out.violation(&format!("[C05] {:?}: a Tcp listener accepted one peer and was then removed (the accepted connection is the node's only resource); the peer streams one-byte messages, two threads send plain signals every 500 us, and the callback re-arms a 700 us timer (cancel_timer(id of the timer that has just fired), then send_with_timer): the callback was entered {} times while another invocation was still running ({} network events, {} signals)", mode, overlaps.load(Ordering::SeqCst), nets.load(Ordering::SeqCst), sigs.load(Ordering::SeqCst)));
+    }
+    if nets.load(Ordering::SeqCst) < 50 || sigs.load(Ordering::SeqCst) < 50 { out.count("node_overlap_accepted_only_thin"); }
+    out.add("overlap_accepted_only_net_events", nets.load(Ordering::SeqCst));
+    out.add("overlap_accepted_only_signals", sigs.load(Ordering::SeqCst));
+    out.count("node_overlap_accepted_only");
+}
+
 pub fn run(a: &Args) {
     let mut out = Out::new(&a.out);
     let mut r = Rng::new(a.seed);
@@ -501,6 +618,8 @@ pub fn run(a: &Args) {
         out.add("stress_callbacks", calls.load(Ordering::SeqCst));
         out.count("node_stress_short_callbacks");
     }
+    for mode in [Mode::ForEach, Mode::ForEachAsync, Mode::Enqueue] { signal_burst(&mut out, mode); }
+    for mode in [Mode::ForEach, Mode::ForEachAsync] { overlap_accepted_only(&mut out, mode, if a.thorough { 3000 } else { 900 }); }
     // C18: a node dropped without ever starting its listener, under traffic, ends its cache thread
     {
         let th0 = std::fs::read_dir("/proc/self/task").map(|d| d.count()).unwrap_or(0);
